@@ -305,11 +305,19 @@ func (h *c01HTTP) Do(req *http.Request) (*http.Response, error) {
 type c01FaultStore struct {
 	verifier.Store
 	fail bool
+	// wave 8: the fault happens INSIDE the real leia store: `closed` is a real leiaVerifierStore whose database has been closed (what a
+	// verification racing with vcr.Shutdown, or an I/O error of verifier-store.db, looks like); failInner routes the read to it, so the
+	// error branches of leiaVerifierStore.GetRevocations themselves are executed
+	failInner bool
+	closed    verifier.Store
 }
 
 func (f *c01FaultStore) GetRevocations(id ssi.URI) ([]*credential.Revocation, error) {
 	if f.fail {
 		return nil, errors.New("verif-store-down")
+	}
+	if f.failInner {
+		return f.closed.GetRevocations(id)
 	}
 	return f.Store.GetRevocations(id)
 }
@@ -383,7 +391,7 @@ func c01Class(err error) string {
 func c01Msg(s string) string {
 	has := func(x string) bool { return strings.Contains(s, x) }
 	switch {
-	case has("verif-store-down"):
+	case has("verif-store-down"), has("error while getting revocation by id"):
 		return "store-error"
 	case has("presenter is credential subject"), has("cannot determine subject of VP"):
 		return "vp-subject-error"
@@ -880,7 +888,7 @@ type c01Call struct {
 func (n *c01Nodes) run(o *c01Out, c c01Call) string {
 	tb := &c01Tables{urls: map[string]any{}, dids: map[string]any{}}
 	op := map[string]any{"op": c.kind, "label": c.label, "base": c.base, "mut": c.mut, "path": c.path,
-		"allowUntrusted": c.allowUntrusted, "checkSig": c.checkSig, "now": time.Now().UnixMilli(), "storeFails": n.fstore.fail}
+		"allowUntrusted": c.allowUntrusted, "checkSig": c.checkSig, "now": time.Now().UnixMilli(), "storeFails": n.fstore.fail || n.fstore.failInner, "storeFault": map[bool]string{true: "inside-leia-store", false: ""}[n.fstore.failInner]}
 	if c.via != "" {
 		op["via"] = c.via
 		op["option"] = nil
@@ -1426,7 +1434,12 @@ func newC01Nodes(t *testing.T) *c01Nodes {
 	}
 	vTrust := trust.NewConfig(path.Join(dir, "vtrust.yaml"))
 	httpStub := &c01HTTP{zero: map[string]string{}, static: map[string][]byte{}}
-	fstore := &c01FaultStore{Store: vstore}
+	closedStore, err := verifier.NewLeiaVerifierStore(path.Join(dir, "vs-closed.db"), storage.CreateTestBBoltStore(t, path.Join(dir, "vsb-closed.db")))
+	if err != nil {
+		t.Fatal(err)
+	}
+	_ = closedStore.Close()
+	fstore := &c01FaultStore{Store: vstore, closed: closedStore}
 	ver := verifier.NewVerifier(fstore, w, kr, w.ldm, vTrust, revocation.NewStatusList2021(vEng.GetSQLDatabase(), httpStub, ""))
 	// issuer node
 	storage.AddDIDtoSQLDB(t, idb, did.MustParseDID(didI), did.MustParseDID(didJ), did.MustParseDID(didH), did.MustParseDID(didD))
@@ -1937,6 +1950,16 @@ func (n *c01Nodes) auditLegs(o *c01Out, rnd *rand.Rand, creds map[string]string)
 		n.run(o, c01Call{kind: "vc", text: fresh[k], label: "api-" + lbl, base: "api-" + lbl, mut: "store-down", via: "api", checkSig: true})
 	}
 	n.fstore.fail = false
+	// wave 8: the same with the fault INSIDE the real leia store (closed database): direct, without signature check (the flags of
+	// vcr.Resolve / Search / wallet.List), through the API, and for a credential carried by a presentation
+	n.fstore.failInner = true
+	for _, k := range names {
+		lbl := "store-fault:" + k
+		n.run(o, c01Call{kind: "vc", text: fresh[k], at: &at, allowUntrusted: true, checkSig: true, label: lbl, base: lbl, mut: "store-down"})
+		n.run(o, c01Call{kind: "vc", text: fresh[k], at: &at, allowUntrusted: false, checkSig: false, label: lbl + "@nosig", base: lbl + "@nosig", mut: "store-down"})
+		n.run(o, c01Call{kind: "vc", text: fresh[k], label: "api-" + lbl, base: "api-" + lbl, mut: "store-down", via: "api", checkSig: true})
+	}
+	n.fstore.failInner = false
 
 	// tampered revocations offered to RegisterRevocation: other subject, other issuer, signed by another party, vm of another party
 	before := len(n.pub.revs)
@@ -2646,6 +2669,46 @@ func (n *c01Nodes) mixedPresentations(o *c01Out, rnd *rand.Rand, creds map[strin
 			}
 		}
 	}
+	// wave 8: credentials of MIXED SUBJECTS. The holder signs a presentation that carries credentials about itself together with
+	// genuine, valid credentials about somebody else (a copy of a victim's credential), in every position and both formats, with
+	// and without a `holder` member: the signer must be the subject of EVERY credential, not of one of them.
+	{
+		ownLD, ownJWT := creds["plain:ldp_vc"], creds["plain:jwt_vc"]
+		victims := []struct{ name, text string }{
+			{"VICTIM-ld", n.handIssueTo(didJ, didJ+"#k10", vc.JSONLDCredentialProofFormat, issuedAt, didO, "-victim")},
+			{"VICTIM-jwt", n.handIssueTo(didJ, didJ+"#k10", vc.JWTCredentialProofFormat, issuedAt, didO, "-victim")},
+			{"VICTIM2-ld", n.handIssueTo(didJ, didJ+"#k10", vc.JSONLDCredentialProofFormat, issuedAt, didI, "-victim2")},
+		}
+		emitS := func(names, texts []string, foreign bool, format string, withHolder bool) {
+			var hp *string
+			if withHolder {
+				hp = &hd
+			}
+			text := n.present(texts, format, didH, hp, issuedAt+20, &exp, false)
+			label := "vpmixsubj-" + format + map[bool]string{true: "+holder", false: ""}[withHolder] + "[" + strings.Join(names, ",") + "]"
+			mut := ""
+			if foreign {
+				mut = "vp-mix-foreign-subject"
+			}
+			for _, cs := range []bool{true, false} {
+				n.run(o, c01Call{kind: "vp", text: text, at: &okAt, allowUntrusted: true, checkSig: cs, label: label + map[bool]string{true: "", false: "@nosig"}[cs], base: label, mut: mut, path: strings.Join(names, ",")})
+			}
+		}
+		for _, f := range formats {
+			for _, wh := range []bool{true, false} {
+				emitS([]string{"own-ld", "own-jwt"}, []string{ownLD, ownJWT}, false, f, wh)
+				for _, v := range victims {
+					emitS([]string{"own-ld", v.name}, []string{ownLD, v.text}, true, f, wh)
+					emitS([]string{v.name, "own-jwt"}, []string{v.text, ownJWT}, true, f, wh)
+					emitS([]string{"own-ld", v.name, "own-jwt"}, []string{ownLD, v.text, ownJWT}, true, f, wh)
+					emitS([]string{v.name, "own-ld", v.name}, []string{v.text, ownLD, v.text}, true, f, wh)
+					emitS([]string{"self", v.name}, []string{self(0), v.text}, true, f, wh)
+					emitS([]string{v.name}, []string{v.text}, true, f, wh)
+				}
+				emitS([]string{"VICTIM-ld", "VICTIM2-ld", "own-ld"}, []string{victims[0].text, victims[2].text, ownLD}, true, f, wh)
+			}
+		}
+	}
 	// random longer lists
 	nRand := 24
 	if thorough {
@@ -2772,10 +2835,15 @@ func (n *c01Nodes) strictNode(o *c01Out, creds map[string]string, okAt int64) {
 
 // handIssue: a plain credential of `issuerDID` for the holder, signed with key `kid` through the real proof builder / JWT signer
 func (n *c01Nodes) handIssue(issuerDID, kid, format string, at int64) string {
+	return n.handIssueTo(issuerDID, kid, format, at, didH, "")
+}
+
+// handIssueTo: a genuine credential of `issuerDID` about `subject` (wave 8: credentials of ANOTHER subject inside a presentation)
+func (n *c01Nodes) handIssueTo(issuerDID, kid, format string, at int64, subject, suffix string) string {
 	u := ssi.MustParseURI
-	id := u(issuerDID + "#" + strings.ReplaceAll(kid[strings.Index(kid, "#")+1:], "#", "") + "-" + format)
+	id := u(issuerDID + "#" + strings.ReplaceAll(kid[strings.Index(kid, "#")+1:], "#", "") + "-" + format + suffix)
 	un := vc.VerifiableCredential{Context: []ssi.URI{u(ctxVC)}, ID: &id, Type: []ssi.URI{u("VerifiableCredential")}, Issuer: u(issuerDID),
-		IssuanceDate: time.Unix(at, 0).UTC(), CredentialSubject: []any{map[string]any{"id": didH}}}
+		IssuanceDate: time.Unix(at, 0).UTC(), CredentialSubject: []any{map[string]any{"id": subject}}}
 	if format == vc.JWTCredentialProofFormat {
 		c, err := vc.CreateJWTVerifiableCredential(n.w.ctx, un, func(ctx context.Context, claims map[string]interface{}, headers map[string]interface{}) (string, error) {
 			return n.w.ks.SignJWT(ctx, claims, headers, kid)
@@ -3031,7 +3099,8 @@ func (n *c01Nodes) replay(o *c01Out, file string, prefix string) {
 				c.option = &b
 			}
 			if sf, ok := op["storeFails"].(bool); ok {
-				n.fstore.fail = sf
+				inner := str("storeFault") != ""
+				n.fstore.fail, n.fstore.failInner = sf && !inner, sf && inner
 			}
 			n.run(o, c)
 		}
